@@ -448,7 +448,8 @@ def r7(F, rep):
     d = F.one("colvardeps::decr_ref_count")
     dis = [c for c in X.calls(d) if X.callee_name(c) == "disable"]
     if not dis:
-        raise AnalysisBroken("decr_ref_count: automatic disable() not found")
+        rep.add("C13-R7", "auto-disable", d.loc(), "decr_ref_count() never disables a dynamic feature whose reference count reaches zero", False,
+                detail="features enabled on behalf of a deleted object stay enabled: deleting is not the inverse of defining", func=d.q)
     for c in dis:
         facts, _ = C.guard_facts(d, c, X.const_locals(d))
         dyn = any(t[0] == "true" and "is_dynamic(" in t[1] for t in facts)
